@@ -21,6 +21,7 @@ import (
 	"sync/atomic"
 	"time"
 
+	"github.com/frankkopp/FrankyGo/internal/config"
 	"github.com/frankkopp/FrankyGo/internal/moveslice"
 	"github.com/frankkopp/FrankyGo/internal/position"
 	"github.com/frankkopp/FrankyGo/internal/search"
@@ -177,6 +178,10 @@ func runLifeScript(sc *LifeScript, seed int64, watchdog time.Duration) *LifeResu
 	rec := &lifeRec{t0: time.Now(), jitter: sc.Jitter, rng: rand.New(rand.NewSource(seed + int64(sc.ID))), kind: map[int]string{}}
 	search.VerifAtHook = rec.hook
 	search.VerifTerminalHook = nil
+	// a small hash table: allocating and ageing the default 256 MB table takes seconds on a loaded
+	// machine and would be mistaken for a hanging call
+	config.Settings.Search.TTSize = 8
+	config.Settings.Search.UseBook = false
 	cap := &lifeCapture{rec: rec}
 	// objects are constructed as the protocol loop constructs them, on the controller goroutine
 	s := search.NewSearch()
